@@ -177,6 +177,23 @@ def handleSt (st : DrvState) (op : String) : P (DrvState × String) :=
   | "deffld" => do
       let t ← pList pField; pEnd
       pure ({ st with flds := st.flds.push t }, s!"ok {st.flds.size}")
+  -- the same three, but from the LINES of a header / string file through the model's loaders (Loaders.lean); an index is
+  -- allocated in every case (empty table when the file is outside the modelled subset) so that indices stay predictable
+  | "deftblfile" => do
+      let ls ← pList pText; pEnd
+      match loadPteTable ls with
+      | some t => pure ({ st with tbls := st.tbls.push t }, s!"ok {st.tbls.size}")
+      | none => pure ({ st with tbls := st.tbls.push [] }, s!"unsupported loader {st.tbls.size}")
+  | "defstrfile" => do
+      let ls ← pList pText; pEnd
+      match loadTraceStrings ls with
+      | some t => pure ({ st with strs := st.strs.push t }, s!"ok {st.strs.size}")
+      | none => pure ({ st with strs := st.strs.push [] }, s!"unsupported loader {st.strs.size}")
+  | "deffldfile" => do
+      let ls ← pList pText; pEnd
+      match loadHlogFields ls with
+      | some t => pure ({ st with flds := st.flds.push t }, s!"ok {st.flds.size}")
+      | none => pure ({ st with flds := st.flds.push [] }, s!"unsupported loader {st.flds.size}")
   | "setenv" => do
       -- allowPlugins, component-id files, ud / src / callout plugin behaviours (everything else: absent), message registry
       let allow ← pBool
@@ -381,10 +398,51 @@ def insertKey {α} (p : Text × α) : List (Text × α) → List (Text × α)
 def canonTable {α} (c : List (Text × α)) : List (Text × α) := c.reverse.foldl (fun acc p => insertKey p (acc.filter (fun q => q.1 != p.1))) []
 def outCache {β} (c : Cache β) : String :=
   outList (fun p => outText p.1 ++ " " ++ (if p.2.isSome then "1" else "0")) (canonTable c)
+def outPte (e : PteEntry) : String := outText e.pattern ++ " " ++ outText e.fmt ++ " " ++ outList outNum e.params
+def outTraceString (x : TraceString) : String := outNum x.hash ++ " " ++ outText x.fmt ++ " " ++ outText x.location
+def outField (f : HlogField) : String := outText f.1 ++ " " ++ outNum f.2
 
 def handle (op : String) : P String :=
   match op with
   | "ping" => pure "ok pong"
+  -- the loaders: lines of the file (as `for line in open(path)` yields them) -> table in the token format of deftbl/defstr/deffld
+  | "loadpte" => do
+      let ls ← pList pText; pEnd
+      match loadPteTable ls with
+      | some t => pure ("ok " ++ outList outPte t)
+      | none => pure "unsupported loader"
+  | "loadpterows" => do
+      -- all five fields of every entry: pattern fmt params file line
+      let ls ← pList pText; pEnd
+      match loadPteRows ls with
+      | some t => pure ("ok " ++ outList (fun r => outPte r.entry ++ " " ++ outText r.file ++ " " ++ outNum r.line) t)
+      | none => pure "unsupported loader"
+  | "loadhlog" => do
+      let ls ← pList pText; pEnd
+      match loadHlogFields ls with
+      | some t => pure ("ok " ++ outList outField t)
+      | none => pure "unsupported loader"
+  | "loadstrs" => do
+      let ls ← pList pText; pEnd
+      match loadTraceStrings ls with
+      | some t => pure ("ok " ++ outList outTraceString t)
+      | none => pure "unsupported loader"
+  | "regroups" => do
+      -- pattern number (0 START, 1 ENTRY, 2 END, 3 HSTART, 4 HFIELD, 5 HEND, 6 LINE) and a line: `0` = no match, else
+      -- `1 n` and for each group 1..n either `0` (did not take part, Python: None) or `1 <text>`
+      let k ← pNum; let l ← pText; pEnd
+      let pats : List (Re × Nat) := [(tblStartRe, 1), (tblEntryRe, 5), (tblEndRe, 0), (hlogStartRe, 1), (hlogFieldRe, 2), (hlogEndRe, 0), (traceLineRe, 3)]
+      match pats[k]? with
+      | none => pure "err bad-pattern"
+      | some (re, n) =>
+        match re.fullmatch l with
+        | none => pure "ok 0"
+        | some caps => pure ("ok 1 " ++ outList (fun i => outOpt outText (capGet caps (i + 1))) (List.range n))
+  | "rematch" => do
+      -- which of the seven patterns fullmatch the line (START ENTRY END, HSTART HFIELD HEND, LINE)
+      let l ← pText; pEnd
+      pure ("ok " ++ String.ofList ([tblStartRe, tblEntryRe, tblEndRe, hlogStartRe, hlogFieldRe, hlogEndRe, traceLineRe].map
+        fun r => if (r.fullmatch l).isSome then '1' else '0'))
   | "fmt" => do
       let f ← pText; let args ← pList pNum; pEnd
       match pyFmt f args with
